@@ -97,7 +97,7 @@ def check_input_exact(sp):
 
 
 def _main_jobs(tier, seed):
-    return [dict(force_down=f) for f in (False, True)]
+    return [dict(force_down=f, _qtimeout_ms=600000) for f in (False, True)]
 
 
 @harness("gen.main", props=["C15", "C17", "C11"], jobs=_main_jobs,
@@ -295,6 +295,16 @@ class RandomStub:
         self.k = 0
         self.draws = []
         self.native = None
+        self.total = 0          # calls over the whole harness run: names the recorded stream values
+        self.replay = sp.mode == "native"
+
+    def _recorded(self, stem):
+        """native replay: the value the solver chose for this call of the counterexample's stream, if recorded"""
+        name = "%s%d" % (stem, self.total)
+        self.total += 1
+        if self.replay and name in self.sp.assignment:
+            return Fraction(self.sp.assignment[name])
+        return None
 
     def seed(self, s):
         self.k = 0
@@ -317,11 +327,15 @@ class RandomStub:
             if self.native is None:
                 raise AssertionError("random source consulted before seeding")
             x = self.native.random()
+            r = self._recorded("draw")
+            if r is not None:
+                x = float(r)
             self.draws.append(x)
             return x
         t = RND(self.seedv, self._next())
-        self.sp.add(t > 0, t < 1)
-        x = SymReal(t)
+        x = self.sp.real("draw%d" % self.total, 0, 1, lo_open=True, hi_open=True)   # declared so that a counterexample records it
+        self.total += 1
+        self.sp.add(x.t == t)
         self.draws.append(x)
         return x
 
@@ -331,22 +345,33 @@ class RandomStub:
         if self.sp.mode == "native":
             if self.native is None:
                 raise AssertionError("random source consulted before seeding")
-            return self.native.choices(pop, weights, k=k)
+            out = self.native.choices(pop, weights, k=k)
+            for i in range(k):
+                r = self._recorded("cho")
+                if r is not None:
+                    out[i] = pop[int(r)]
+            return out
         out = []
         for _ in range(int(k)):
             c = CHO(self.seedv, self._next())
-            self.sp.add(c >= 0, c < len(pop))
-            out.append(pop[int(SymInt(c))])
+            v = self.sp.int("cho%d" % self.total, 0, len(pop) - 1)
+            self.total += 1
+            self.sp.add(v.t == c)
+            out.append(pop[int(v)])
         return out
 
     def randrange(self, a, b):
         if self.sp.mode == "native":
             if self.native is None:
                 raise AssertionError("random source consulted before seeding")
-            return self.native.randrange(a, b)
+            x = self.native.randrange(a, b)
+            r = self._recorded("rrg")
+            return int(r) if r is not None else x
         c = RRG(self.seedv, self._next())
-        self.sp.add(c >= to_int(a), c < to_int(b))
-        return SymInt(c)
+        v = self.sp.int("rrg%d" % self.total)
+        self.total += 1
+        self.sp.add(v.t == c, c >= to_int(a), c < to_int(b))
+        return v
 
 
 def _rnd_jobs(tier, seed):
@@ -362,7 +387,8 @@ def _rnd_jobs(tier, seed):
 
 
 @harness("gen.rnd_board", props=["C15"], jobs=_rnd_jobs, covers=["force_down", "plain"],
-         stubs=["random -> contract stub: stream = uninterpreted function of (seed, position), random() in (0,1), choices/randrange in range",
+         stubs=["random -> contract stub: stream = uninterpreted function of (seed, position), random() in (0,1), choices/randrange in range; "
+                "a counterexample is replayed natively on the real code with the stream values the solver chose, then with the real PRNG on 48 seeds",
                 "math.log -> monotone uninterpreted function with ln 1 = 0 and ln 2^-(m+1) = -(m+1) ln 2; math.floor -> k <= x < k+1"],
          bounds="boards up to 1x3 / 2x2 (quick 2 tiles), max_reward in {1,2,3,4,6,8} (quick {1,2,6}), ANY seed >= 0 and ANY loose-tile "
                 "probability in (0,1) (symbolic), both force-down settings",
@@ -380,8 +406,10 @@ def gen_rnd_board(sp, L, W, m, fd):
     runs = [(seeds[0], L, W)]
     if sp.mode == "native":
         # the contract run cannot be replayed bit for bit: try the real PRNG on several seeds and on a large board
-        runs += [(s, L, W) for s in range(0, 40)] + [(s, 30, 30) for s in (seeds[0], 1, 2, 3, 4, 5)]
-    for seed, L, W in runs:
+        runs += [(s, L, W) for s in range(0, 40)] + [(s, 16, 16) for s in (seeds[0], 1, 2, 3, 4, 5, 6, 7)]
+    for run_no, (seed, L, W) in enumerate(runs):
+        if run_no == 1:
+            rs.replay = False      # further native runs use the real PRNG only
         ms.power_of_two(m + 1)
         moves, rewards, loose = gen.gen_rnd_board(seed, L, W, p, m, fd)
         draws = list(rs.draws)
